@@ -235,6 +235,9 @@ func runChild(ctx *context, rs runSpec, bin string, ag *aggregate, from, to, sha
 			b = append([]byte("...\n"), b[len(b)-6000:]...)
 		}
 		tail = string(b)
+		if strings.Contains(tail, "fatal error: verif watchdog") {
+			timedOut = true
+		}
 	}
 	return
 }
@@ -554,6 +557,19 @@ func run(ctx *context) int {
 		if rs.race {
 			n, reports := collectRaceReports(ctx.work, "race-"+rs.name+"-")
 			if rs.calib {
+				// A report whose racing access sits in a Spinlock method is a data race in the
+				// lock implementation itself (e.g. a plain-store Release), not a failure of the
+				// annotation: that is a violation of the visibility half of the property.
+				for key, text := range reports {
+					if strings.Contains(key, "(*Spinlock).") {
+						ag.violations = append(ag.violations, violation{Sig: "race-in-lock-implementation:" + key, Idx: -1, Run: rs.name, Detail: text})
+						delete(reports, key)
+						n--
+					}
+				}
+				if len(reports) == 0 {
+					n = 0
+				}
 				if n > 0 {
 					ag.inconclusive++
 					ag.inconWhat = append(ag.inconWhat, fmt.Sprintf("race calibration produced %d report(s): the lock annotation is not effective, race facet undecided", n))
@@ -807,7 +823,7 @@ func raceKey(blk string) string {
 				if strings.HasPrefix(fn, "/") || strings.HasPrefix(fn, "runtime.") || strings.HasPrefix(fn, "sync/atomic") {
 					continue
 				}
-				if p := strings.Index(fn, "("); p > 0 {
+				if p := strings.LastIndex(fn, "("); p > 0 {
 					fn = fn[:p]
 				}
 				if p := strings.LastIndex(fn, "/"); p >= 0 {
